@@ -15,7 +15,7 @@ import z3
 Key = z3.DeclareSort("Key")          # parameter keys of an element (strings in Python; only compared)
 POS_INF = z3.Real("POS_INF")
 NEG_INF = z3.Real("NEG_INF")
-INF_AXIOMS = [NEG_INF < -1, POS_INF > 1]
+INF_AXIOMS = [POS_INF > 1, NEG_INF == -POS_INF]
 
 _fresh = itertools.count()
 
